@@ -96,7 +96,19 @@ def run_case(case):
             obs['hreq'].append(b''.join(ndef.message_encoder(records)))
             return list(ndef.message_decoder(resp_octets[min(n, 1)]))
 
+    slow = {'llc': None}
+    orig_recv = nfc.llcp.Socket.recv
+
+    def slow_recv(self):
+        # a slow consumer: the application thread of one side takes its time
+        # before every recv() while the link keeps running
+        if self.llc is slow['llc']:
+            sched.vsleep(0.03)
+        return orig_recv(self)
+
     def srv_startup(llc):
+        if case.get('slow') == 'server':
+            slow['llc'] = llc
         if kind in ('put', 'get'):
             obs['srv'] = Snep(llc, max_acceptable_length=(
                 limit if kind == 'put' else BIG),
@@ -111,6 +123,9 @@ def run_case(case):
         return True
 
     def cli_app(llc, ctx):
+        if case.get('slow') == 'client':
+            slow['llc'] = llc
+
         def work():
             try:
                 if kind == 'put':
@@ -149,7 +164,12 @@ def run_case(case):
     s, ctx, net = stack.run_pair(side_opts['ini'], side_opts['tgt'],
                                  ini_app=apps['ini'], tgt_app=apps['tgt'],
                                  horizon=120.0, max_steps=2000000)
-    s.run()
+    if case.get('slow'):
+        nfc.llcp.Socket.recv = slow_recv
+    try:
+        s.run()
+    finally:
+        nfc.llcp.Socket.recv = orig_recv
     return judge(case, s, ctx, net, obs, msg,
                  msg2 if kind == 'ho2' else None, resp_octets)
 
@@ -285,6 +305,12 @@ def cases(tier):
                 for sz in ss:
                     n += 1
                     out.append(dict(base, kind=kind, size=sz, agf=n % 2 == 0))
+            # a slow consumer on either side (the receive window fills up)
+            for kind in ('put', 'get', 'ho2'):
+                for slow in ('server', 'client'):
+                    for sz in (3 * m_up + 5, 5 * 128 + 9):
+                        out.append(dict(base, kind=kind, size=sz, slow=slow,
+                                        agf=sz % 2 == 0))
             # acceptable length around the message size
             for kind in ('put', 'get'):
                 m = m_up if kind == 'put' else 128
@@ -330,7 +356,9 @@ def main(tier='quick', seed=0, part=None):
         "{put, get, handover, two handover requests on one connection} x "
         "message sizes 3..12 and k*m-7..k*m+7 around multiples of the "
         "negotiated connection MIU (k=1..3) x aggregation on/off, plus "
-        "acceptable-length limits s-1, s, s+1; one whole-stack run per point; "
+        "acceptable-length limits s-1, s, s+1, plus a slow consumer (30 ms "
+        "before every recv) on the server or client side for multi-fragment "
+        "messages; one whole-stack run per point; "
         "distinct = distinct grid point (all non-trivial: a message crosses "
         "the link)")
     run.assumptions += [
